@@ -2,6 +2,7 @@
 # usage: soak.sh <first-seed> <last-seed> [tier]
 # Runs every check with other seeds on the unchanged tree; anything but exit 0 is logged.
 cd /verif
+export VERIF_REPLAY_DIR=/tmp/soak.replays VERIF_EVIDENCE_DIR=/tmp/soak.evidence
 T=${3:-quick}
 for seed in $(seq $1 $2); do
   for id in C03 C05 C06 C08 C10 C11 C12 C13 C14; do
